@@ -529,7 +529,7 @@ class CallMixin:
             # the dependency is consulted for constants only, never interpreted as DSL code
             mex = external_table()['methods'].get(func.name)
             only = external_table().get('when_first_argument_is', {}).get(func.name)
-            if mex and only and not (args and show(args[0]).startswith(only + '(')):
+            if mex and only and not (args and (show(args[0]).startswith(only + '(') or (only + '.') in show(args[0])[:80])):
                 mex = None      # the documented error belongs to one kind of argument (see external.json notes)
             if mex:
                 self.risk(fr, 'ext:' + func.qualname, tuple(mex), args[0] if args else recv, node)
